@@ -1866,6 +1866,7 @@ def run_batch(ctx, batch):
 def correspond(ctx):
     _state['ks_calls'] = {}
     _state['cur'] = None
+    _state['ks_samples'] = 0
     install_recorder()
     try:
         correspond_conversions(ctx)
@@ -1900,6 +1901,10 @@ def ks_check(ctx, batch_keys, ycap, origin):
         dom = ks_domain(rings)
         ctx.count(('ks', k), nontrivial=True)
         ctx.dist(f'ks:{origin}:' + status.replace('crash:', 'crash-'))
+        if got is not None and origin == 'recorded' and status == 'done' and len(ys) > 1 and _state.get('ks_samples', 0) < 2:
+            _state['ks_samples'] = _state.get('ks_samples', 0) + 1
+            ctx.sample({'request': ks_line(k, ycap)[:300], 'implementation': status + ' | ' + ' ; '.join(fmt_path(p) for p in ys)[:300],
+                        'model': got[i][:300]}, limit=8)
         cur = _state['ks_calls'].get(k) if origin == 'recorded' else None
         if got is not None and ('dom=1' in got[i].partition(' | ')[0]) != dom:
             # `graphOKb` (the hypothesis of search_sound_partial, decided by the driver) vs the harness' own domain test
@@ -2157,7 +2162,7 @@ def correspond_conversions(ctx):
         mols.append((f'small-ring-fusion:{name}#{j}', m))
     for j, (name, m) in enumerate(phenylenes()):
         mols.append((f'phenylene:{name}#{j}', m))
-    for j, (name, m) in enumerate(pi_complexes(rng, 60 if ctx.quick else None)):
+    for j, (name, m) in enumerate(pi_complexes(rng, 60 if ctx.quick else 400)):
         mols.append((f'pi-complex:{name}#{j}', m))
     mols += molgen.corpus(rng, 280 if ctx.quick else 4200)
     n_gen = 300 if ctx.quick else 2500
